@@ -121,6 +121,15 @@ def _rt(ch, spec, model, free_values, mode=""):
                 d = diff(obj, p[1])
                 return dict(ok=False, case=c, bucket=f"roundtrip/{wname}-{hname}/" + sig(spec, exprs, None, d),
                             detail=f"{d}\n{r[1]}")
+            if any("union" in f.tags for f in spec.fields):
+                # the default (lenient) configuration must pick the same candidate for a valid document: unions are tried strictly inside
+                with warnings.catch_warnings():
+                    warnings.simplefilter("ignore")
+                    p2 = call(XmlParser(context=ctx, handler=handler).from_string, r[1], model.root)
+                if p2[0] == "exc" or not same(p2[1], obj):
+                    d = repr(p2[1]) if p2[0] == "exc" else diff(obj, p2[1])
+                    return dict(ok=False, case={**c, "parser_config": "default"}, bucket=f"roundtrip-default-config/{wname}-{hname}/" + sig(spec, exprs, None, d if p2[0] != "exc" else None),
+                                detail=f"{d}\n{r[1]}")
     nontrivial = (tuple(spec_key(spec)), tuple(exprs))
     return dict(ok=True, case=case, obs=str(len(outs["native"])), nontrivial=nontrivial, counters=counters)
 
